@@ -27,6 +27,10 @@ class WidthCase(base.CaseBase):
         self.noffs = no
         self.anns = [Tag(0), Tag(1)]
         self.rule = params.get('rule', self.rule)
+        # 'frac' cases: page width and ribbon fraction are concrete (any float
+        # in (0, 1], not only rw / width), everything else stays symbolic
+        self.frac = params.get('frac')
+        self.cw = params.get('w')
 
     def pre(self, leaves, offs, w, rw):
         for k, x in enumerate(leaves):
@@ -41,19 +45,29 @@ class WidthCase(base.CaseBase):
                     return False
             elif o != 0:
                 return False
+        if self.frac is not None:
+            return w == self.cw and rw == 1
         return 1 <= rw and rw <= w and w <= MAXW
 
     def run(self, leaves, offs, w, rw, smart):
         doc = refsem.build(self.shape, leaves, offs, self.anns)
         fn = L.layout_smart if smart else L.layout_fast
-        frac = stubs.ribbon_frac_arg(rw, w, self.native)
+        if self.frac is not None:
+            # the ribbon width as the documented formula defines it (Python's
+            # round: half to even), computed on concrete numbers
+            w = self.cw
+            frac = self.frac
+            rw = max(0, min(w, round(frac * w)))
+        else:
+            frac = stubs.ribbon_frac_arg(rw, w, self.native)
         stream = list(fn(doc, width=w, ribbon_frac=frac))
         toks = refsem.tokenize(stream, leaves, self.native)
         cols = refsem.columns(toks, leaves)
         ends = refsem.line_ends(toks, cols)
         rwe = rw if rw < w else w
-        describe = lambda: 'shape=%s w=%r rw=%r smart=%r\nstream=%r\ntext=\n%s' % (
-            gen_docs.show(self.shape), w, rw, smart, stream,
+        describe = lambda: 'shape=%s w=%r rw=%r%s smart=%r\nstream=%r\ntext=\n%s' % (
+            gen_docs.show(self.shape), w, rw,
+            '' if self.frac is None else ' (ribbon_frac=%r)' % self.frac, smart, stream,
             refsem.plain_text(toks, leaves))
 
         if self.rule == 'C05':
@@ -232,8 +246,44 @@ def shape_cases(tier, seed, rule):
     return out
 
 
+# (page width, ribbon fraction): fraction * width on a half (the rounding rule
+# decides), just below / above one, tiny (ribbon 0), and 1.0
+FRAC_PAIRS_QUICK = [(5, 0.5), (7, 0.5), (10, 0.25), (6, 0.75), (12, 0.375),
+                    (8, 0.3), (11, 0.9), (4, 0.1), (9, 1.0)]
+FRAC_SHAPES = ('bracket2', 'nested-grp-r', 'grp-then-deeper-grp', 'two-grps',
+               'ribbon-nest', 'align-in-grp', 'grp-on-deeper-line')
+
+
+def frac_pairs(tier):
+    if tier == 'quick':
+        return FRAC_PAIRS_QUICK
+    out = list(FRAC_PAIRS_QUICK)
+    for w in range(1, 31):
+        for f in (0.5, 0.25, 0.75, 0.125, 0.375, 0.625, 0.875, 0.3, 0.7, 0.05, 0.95):
+            if (w, f) not in out and (w * f * 2 == int(w * f * 2) or w % 5 == 0):
+                out.append((w, f))
+    return out
+
+
+def frac_cases(tier, seed, rule):
+    cur = dict(gen_docs.curated_classic())
+    names = [n for n in FRAC_SHAPES if n in cur]
+    if len(names) < 4:                       # curated list renamed: take the first ones
+        names = [n for n, _ in gen_docs.curated_classic()][:6]
+    if tier != 'quick':
+        names = names + [n for n in cur if n not in names][:10]
+    out = []
+    for w, f in frac_pairs(tier):
+        for n in names:
+            out.append({'name': 'frac:%s:w%d:f%s' % (n, w, f), 'family': 'width',
+                        'params': {'shape': cur[n], 'w': w, 'frac': f},
+                        'budget': 40.0, 'twin': (w, f, n) == (5, 0.5, names[0])})
+    return out
+
+
 def cases(tier, seed):
-    return lemmas.lemma_tasks(tier, 'c05') + shape_cases(tier, seed, 'C05')
+    return (lemmas.lemma_tasks(tier, 'c05') + shape_cases(tier, seed, 'C05')
+            + frac_cases(tier, seed, 'C05'))
 
 
 def evidence(tier, seed, tasks, results):
@@ -245,7 +295,9 @@ def evidence(tier, seed, tasks, results):
                 'text leaf length': '1..%d (symbolic)' % MAXLEN,
                 'nest offset': '0..%d (symbolic)' % MAXOFF,
                 'page width': '1..%d (symbolic)' % MAXW,
-                'ribbon width': '1..width (symbolic)',
+                'ribbon width': '1..width (symbolic), i.e. fractions ribbon_width / width; '
+                                'plus concrete (width, fraction) pairs with arbitrary fractions '
+                                '(halves, where the rounding rule decides; see frac_pairs)',
                 'strategy': 'both (symbolic bool)',
                 'shapes': 'classic algebra: curated + all shapes with a group and <= 1 combinator node '
                           '+ %s of the 2-node shapes' % ('a seeded sample' if tier == 'quick' else 'all')
